@@ -498,7 +498,10 @@ def _sh_child(sc, prefix, stop_at, q):
             h5 = {k: v for k, v in h5.items() if k != "nonadiabatic"}
             out["h5"] = h5
             mol = Molecule(Constants(), sp, coords, species)
-            dyn = MD.XL_ESMD(xl_bomd_params={"k": sc.get("k", 6)}, seqm_parameters=sp, timestep=sc.get("dt", 0.2), Temp=sc.get("temp", 300.0), output=out)
+            xp = {"k": sc.get("k", 6)}
+            if sc.get("max_rank"):
+                xp.update({"max_rank": int(sc["max_rank"]), "err_threshold": 0.0, "T_el": sc.get("T_el", 1500)})     # Krylov kernel
+            dyn = MD.XL_ESMD(xl_bomd_params=xp, seqm_parameters=sp, timestep=sc.get("dt", 0.2), Temp=sc.get("temp", 300.0), output=out)
             run_kw = {"dmprop": "SCF"}
             resume = MD.XL_ESMD.run_from_checkpoint
         else:
